@@ -1,5 +1,6 @@
 //! tasksim — task-level deterministic simulator for jplatte/eyeball (see /verif/DESIGN.md).
 
+mod autotraits;
 mod common;
 mod lin;
 mod obsworld;
@@ -235,6 +236,17 @@ fn replay(a: &Args) -> i32 {
             let rf: ReplayFile<obsworld::asyncsim::ACase> = serde_json::from_str(&text).unwrap();
             replay_with(&obsworld::acheck::AsyncCheck, &rf, &path)
         }
+        "static-autotraits" => {
+            let bad = autotraits::offending();
+            if bad.is_empty() {
+                println!("replay did not reproduce the recorded violation (property holds)");
+                0
+            } else {
+                println!("replay reproduced: {}", bad.join("; "));
+                println!("VIOLATION property=C20 replay={}", path);
+                1
+            }
+        }
         w => {
             eprintln!("unknown world {w}");
             2
@@ -299,6 +311,17 @@ fn main() {
                         write_evidence(&a, "C07", &merge_evidence(parts));
                     }
                     c1.max(c2)
+                }
+                "C20" if !autotraits::offending().is_empty() => {
+                    let bad = autotraits::offending();
+                    println!("violation (static): with an element type that is neither Send nor Sync: {}", bad.join("; "));
+                    let dir = format!("{}/replays", a.out_dir);
+                    let _ = std::fs::create_dir_all(&dir);
+                    let path = format!("{dir}/C20-autotraits.json");
+                    let doc = serde_json::json!({"property": "C20", "engine": "tasksim", "world": "static-autotraits", "violation": {"oracle": "non_send_value_can_cross_threads", "detail": bad}});
+                    std::fs::write(&path, serde_json::to_string_pretty(&doc).unwrap()).unwrap();
+                    println!("VIOLATION property=C20 replay={path}");
+                    1
                 }
                 "C20" => {
                     let h = half(&a);
